@@ -356,7 +356,9 @@ fn oracle(case: &Case, o: &Obs, stats: &mut Vec<&'static str>) -> Result<(), Str
     // (d) — scores are f32: where the f32 format cannot tell adjacent table cells apart
     // ((|M·offset|·scale + len) >= 2^22, i.e. an error of 2^-23 relative reaches half a cell) the
     // clause is not claimed; such matrices are still run and a violation is counted (finding).
-    let resolvable = (o.u0.abs() as f64) * (o.sfac as f64) + (o.sf.len() as f64) < 4194304.0;
+    // (LMV_C11_STRICT_F32=1 claims the clause everywhere: used to reproduce the finding as a failure)
+    let strict = std::env::var("LMV_C11_STRICT_F32").map(|v| v == "1").unwrap_or(false);
+    let resolvable = strict || (o.u0.abs() as f64) * (o.sfac as f64) + (o.sf.len() as f64) < 4194304.0;
     if !resolvable {
         stats.push("oracle/f32-cannot-resolve-grid:(d)-not-claimed");
         if o.sc.iter().any(|(p, _, back)| *p > 0.0 && !(back <= p)) {
